@@ -97,7 +97,7 @@ Proof. reflexivity. Qed.
 (* soundness of the reader, for every list of lines and every reachable state *)
 
 Lemma parse_lines_sound : forall ls spec buf count k n F,
-  parse_lines spec buf count k ls = Ok n F ->
+  parse_lines spec buf count k ls = DOk n F ->
   exists zs m,
     ints_of (data_tokens ls) = Some zs /\
     split0 (buf ++ zs) = (F, []) /\
@@ -148,7 +148,7 @@ Lemma lit_ok_in n z : lit_ok n z = true -> z <> 0 -> lit_in n z.
 Proof. unfold lit_ok, lit_in. lia. Qed.
 
 Theorem parse_sound_lines : forall ls n F,
-  parse_lines None [] 0 0 ls = Ok n F ->
+  parse_lines None [] 0 0 ls = DOk n F ->
   exists sl m, spec_lines ls = [sl] /\ parse_spec sl = Some (n, m) /\ m = len F /\ 0 <= n /\
                clauses_written ls = Some (F, []) /\ Forall (Forall (lit_in n)) F.
 Proof.
@@ -379,7 +379,7 @@ Lemma parse_lines_clause n m count k c rest :
   Forall (lit_in n) c -> Forall small c ->
   parse_lines (Some (n, m)) [] count k (clause_line c :: rest) =
   match parse_lines (Some (n, m)) [] (count + 1) (k + 1) rest with
-  | Ok n' F => Ok n' (c :: F)
+  | DOk n' F => DOk n' (c :: F)
   | e => e
   end.
 Proof.
@@ -403,7 +403,7 @@ Qed.
 Lemma parse_lines_clauses : forall F n m count k,
   Forall (Forall (lit_in n)) F -> Forall (Forall small) F ->
   parse_lines (Some (n, m)) [] count k (map clause_line F) =
-  if m =? count + len F then Ok n F else Err WrongCount 0.
+  if m =? count + len F then DOk n F else Err WrongCount 0.
 Proof.
   induction F as [|c F IH]; intros n m count k Hv Hs.
   - cbn [map parse_lines nonempty].
@@ -432,7 +432,7 @@ Qed.
 
 Theorem roundtrip_lines h names n F :
   valid n F -> printable n -> printable (len F) ->
-  parse_lines None [] 0 0 (print_lines h names n F) = Ok n F.
+  parse_lines None [] 0 0 (print_lines h names n F) = DOk n F.
 Proof.
   intros Hv Pn Pm. unfold print_lines.
   rewrite parse_lines_comments by apply comment_lines_start_c.
@@ -447,14 +447,14 @@ Qed.
 Theorem dimacs_roundtrip_proved u h names n F :
   valid n F -> printable n -> printable (len F) ->
   header_ok h = true -> names_ok names = true ->
-  parse_dimacs u (print_dimacs h names n F) = Ok n F.
+  parse_dimacs u (print_dimacs h names n F) = DOk n F.
 Proof.
   intros Hv Pn Pm Hh Hn. unfold parse_dimacs. rewrite read_lines_print by assumption.
   apply roundtrip_lines; assumption.
 Qed.
 
 Theorem parse_sound_proved u t n F :
-  parse_dimacs u t = Ok n F ->
+  parse_dimacs u t = DOk n F ->
   exists sl m, spec_lines (read_lines u t) = [sl] /\ parse_spec sl = Some (n, m) /\
                m = len F /\ 0 <= n /\
                clauses_written (read_lines u t) = Some (F, []) /\
